@@ -362,6 +362,7 @@ def c07(rep, tier):
 def c16(rep, tier):
     p = P("all")
     r_table.run_entities(p, rep)
+    r_table.run_once_lookup(p, rep)
     r_table.run_url(p, rep)
     import r_strslice
     fns = [f for f in p.fns.values() if f.id.startswith("liquid_lib::stdlib::filters::html::") or f.id.startswith("liquid_lib::stdlib::filters::url::")]
